@@ -557,8 +557,10 @@ func buildC14(tier string) *core.Plan {
 	nt := int64(len(c14Transforms))
 	nv := int64(len(vals))
 	single := core.Space{Name: "single-transform", N: nv * nt,
-		Desc: func(i int64) any { return map[string]any{"value": vals[i/nt], "transforms": []any{c14Transforms[i%nt]}} },
-		Run:  func(c *core.Ctx, i int64) { c14Check(c, vals[i/nt], []any{c14Transforms[i%nt]}) }}
+		Desc: func(i int64) any {
+			return map[string]any{"value": vals[i/nt], "transforms": []any{c14Transforms[i%nt]}}
+		},
+		Run: func(c *core.Ctx, i int64) { c14Check(c, vals[i/nt], []any{c14Transforms[i%nt]}) }}
 	double := core.Space{Name: "stacks-of-2", N: nv * nt * nt,
 		Desc: func(i int64) any {
 			return map[string]any{"value": vals[i/(nt*nt)], "transforms": []any{c14Transforms[(i/nt)%nt], c14Transforms[i%nt]}}
